@@ -748,6 +748,100 @@ def rule_stop(ctx):
     return res.finish(3)
 
 
+def rule_offset(ctx):
+    """A running offset whose advance depends on the loop index (`start += n - row - 1`) is the position of iteration `row` in
+    the output: it has to advance in every iteration, also in those that have nothing to write.  A `continue` before the
+    advance shifts everything that follows."""
+    from .layout import with_parents
+    res = RuleResult("R-C06-offset", "in linfa-kernel a running position that is advanced by an amount depending on the loop index is advanced on every path through the loop body (no `continue` skips it)")
+    F = ctx.facts()
+    n = 0
+    scanned = 0
+    for fn in F.all_fns():
+        d = fn["d"]
+        if d["krate"] != "linfa_kernel" or "tests" in d["path"] or fn.get("exp"):
+            continue
+        c = fn["crate"]
+        r = Render(c)
+        loops = list(for_loops(fn["body"]))
+        if loops:
+            scanned += 1
+        for it, pat, body, node in loops:
+            b = strip(body)
+            if b.get("k") != "Block":
+                continue
+            stmts = list(b.get("stmts") or []) + ([b["e"]] if b.get("e") is not None else [])
+            lb = set(x["local"] for x in pat_bindings(pat))
+            inner_lets = set(x["local"] for s_ in stmts for y in walk(s_) if y.get("k") == "LetStmt" for x in pat_bindings(y["pat"]))
+            adv = [(i, strip(s_)) for i, s_ in enumerate(stmts) if strip(s_).get("k") == "AssignOp" and strip(s_)["op"] in ("+", "-") and local_of(strip(s_)["l"]) is not None
+                   and local_of(strip(s_)["l"]) not in inner_lets and any(z.get("k") == "Path" and z.get("local") in lb for z in walk(strip(s_)["r"]))]
+            if not adv:
+                continue
+            i_adv, a = adv[-1]
+            n += 1
+            key = fn_key(fn)
+            res.instance("%s : `%s` (line %s)" % (key, r.e(a)[:40], a.get("ln")))
+            bad = None
+            for s_ in stmts[:i_adv]:
+                for y, anc in with_parents(s_):
+                    if y.get("k") == "Continue" and not any(x.get("k") == "Loop" or (x.get("k") == "Match" and x.get("src") == "ForLoopDesugar") or x.get("k") == "Closure" for x in anc):
+                        bad = y
+            if bad is not None:
+                res.violate("%s : position-not-advanced-on-continue" % key, "a `continue` (line %s) skips `%s`: the position of every later iteration is short by what the skipped iterations should have added" % (bad.get("ln"), r.e(a)[:40]), fn_loc(fn, bad.get("ln")))
+            else:
+                res.ok()
+    res.instance("functions of linfa-kernel with loops scanned: %d" % scanned)
+    if scanned >= 3:
+        res.ok()
+    else:
+        res.missing_anchor("loops in linfa-kernel (found %d functions)" % scanned)
+    return res.finish(1)
+
+
+def rule_countarith(ctx):
+    """min(requested, n) clusters: requesting more clusters than there are samples is legal (only 0 is rejected) and gives n
+    clusters.  `n - requested` in unsigned arithmetic is only defined for requested <= n; without a guard (a comparison, a
+    min, a saturating subtraction) it overflows exactly in that case."""
+    res = RuleResult("R-C06-countarith", "the requested number of clusters is not subtracted from the number of samples (or the reverse) in unsigned arithmetic without a guard: more clusters than samples may be requested")
+    F = ctx.facts()
+    fn = _hier(F)
+    if fn is None:
+        res.missing_anchor("ValidHierarchicalCluster::transform")
+        return res.finish(1)
+    c = fn["crate"]
+    r = Render(c)
+    key = fn_key(fn)
+    inits = inits_of(fn)
+    res.instance("%s : arithmetic on the requested cluster count" % key)
+    bad = None
+    for m in walk(fn["body"]):
+        if m.get("k") != "Match" or m.get("src", "Normal") != "Normal" or _self_field(m["scrut"]) != "stopping":
+            continue
+        for arm in m["arms"]:
+            pat = arm["pat"]
+            while pat.get("k") == "Ref":
+                pat = pat["pat"]
+            if (c.dfn(pat.get("def")) or {}).get("name") != "NumClusters":
+                continue
+            bl = [b["local"] for b in pat_bindings(pat)]
+            if len(bl) != 1:
+                continue
+            guarded = arm.get("guard") is not None and any(z.get("k") == "Path" and z.get("local") == bl[0] for z in walk(arm["guard"]))
+            for y in walk(arm["body"]):
+                if y.get("k") == "Binary" and y["op"] == "-" and bl[0] in (local_of(y["l"]), local_of(y["r"])):
+                    other = y["l"] if local_of(y["r"]) == bl[0] else y["r"]
+                    oe = resolve(other, inits)
+                    sized = (oe.get("k") == "MethodCall" and oe["name"] in ("size", "nsamples", "len"))
+                    inner_guard = any(z.get("k") == "If" and any(w.get("k") == "Path" and w.get("local") == bl[0] for w in walk(z["c"])) and any(w is y for w in walk(z)) for z in walk(arm["body"]))
+                    if sized and not guarded and not inner_guard:
+                        bad = y
+    if bad is not None:
+        res.violate("%s : cluster-count-subtraction-unguarded" % key, "`%s` is computed in unsigned arithmetic without a guard: requesting more clusters than there are samples (legal, and documented to give one cluster per sample) overflows" % r.e(bad)[:50], fn_loc(fn, bad.get("ln")))
+    else:
+        res.ok()
+    return res.finish(1)
+
+
 def rule_merge(ctx):
     res = RuleResult("R-C06-merge", "a merge removes the two clusters of the step and inserts the union of their members under a fresh id that starts at n and advances by one (kodama's numbering)")
     F = ctx.facts()
@@ -1145,7 +1239,7 @@ def rule_views(ctx):
 def rules(tier):
     from . import carry, precision, c13, c04
     CR = {"linfa_kernel", "linfa_hierarchical"}
-    return [c04.make_carry_rule("R-C06-carry", {"HierarchicalCluster", "KernelParams"}, 3), c04.make_setter_value_rule("R-C06-setter", {"HierarchicalCluster", "KernelParams"}, 3),
+    return [rule_countarith, rule_offset, c04.make_carry_rule("R-C06-carry", {"HierarchicalCluster", "KernelParams"}, 3), c04.make_setter_value_rule("R-C06-setter", {"HierarchicalCluster", "KernelParams"}, 3),
             rule_entries, rule_method, rule_adjacency, rule_stop, rule_merge, rule_labels, rule_linkage, rule_views, c13.rule_kernel,
             carry.make_clone_rule("R-C06-clone", CR, 6), carry.make_setter_rule("R-C06-override", CR, 4),
             carry.make_ctor_rule("R-C06-ctor", CR, 1),
